@@ -252,7 +252,7 @@ def main(modname):
             confirmed.append(r)
             return True
         not_reproduced.append(r)
-        return True
+        return len(not_reproduced) >= 8   # keep looking for a reproducible one, but not forever
 
     # 1. canaries (vacuity / reachability guard): each must be violated and replay on the patched copy
     canary_log = []
